@@ -299,9 +299,7 @@ func c14connTwin(r *simkit.Run) {
 			q := req.Context().Value(ctxKey{}).(*twinReq)
 			q.entered[which] = true
 			ins := sim.Park("handler").(instr)
-			if ins.panic {
-				panic("handler abort")
-			}
+			ins.leave()
 			w.WriteHeader(ins.status)
 		})
 		cl, err := connlimit.New(h, extract, int64(limit))
@@ -351,8 +349,9 @@ func c14connTwin(r *simkit.Run) {
 		q := inflight[k]
 		inflight = append(inflight[:k], inflight[k+1:]...)
 		ins := instr{status: 200, panic: rapid.IntRange(0, 4).Draw(rt, "abort") == 0}
+		drawLeave(rt, &ins)
 		if ins.panic {
-			r.Fault("handler-panic")
+			r.Fault("handler-" + leaveStyles[ins.style])
 		}
 		sim.Note("finish", int64(q.src), b2i(ins.panic))
 		for w := 0; w < 2; w++ {
